@@ -229,6 +229,10 @@ async def _run(case, loop, base, root, outside):
             options["block2"] = tuple(rq["block2"])
         if rq.get("if_none_match"):
             options["if_none_match"] = True
+        if rq.get("observe") is not None:
+            options["observe"] = rq["observe"]  # (on any method: the library then takes the observable-resource path)
+        if rq.get("block1") is not None:
+            options["block1"] = tuple(rq["block1"])
         if rq.get("if_match") is not None:
             im = rq["if_match"]
             options["if_match"] = [b"" if x == "empty" else (last_etag.get(tuple(path), b"\x01\x02") if x == "last" else bytes(x)) for x in im]
@@ -248,6 +252,11 @@ async def _run(case, loop, base, root, outside):
         code = int(resp.code)
         cls = code >> 5
         labels.add("m%d-%d.xx" % (rq["method"], cls))
+        if code == 95:
+            # 2.31 Continue: a non-final Block1 block was taken into the library's spool; nothing has been
+            # executed yet (the interposer below still sees every file-system access of this step)
+            cls = 0
+            labels.add("block1-continue")
         # 1. every path touched resolves inside the root
         for event, p in mon.log:
             rp = resolve(p, cwd)
@@ -424,6 +433,10 @@ def _case(draw):
             rq["if_match"] = draw(st.lists(st.sampled_from(["empty", "last", [1, 2, 3]]), min_size=1, max_size=2))
         if draw(st.integers(0, 5)) == 0:
             rq["etag"] = draw(st.sampled_from(["last", "other"]))
+        if draw(st.integers(0, 4)) == 0:
+            rq["observe"] = draw(st.sampled_from([0, 0, 1]))
+        if rq["method"] in (2, 3, 5, 6) and draw(st.integers(0, 5)) == 0:
+            rq["block1"] = [draw(st.sampled_from([0, 0, 1])), draw(st.booleans()), draw(st.sampled_from([0, 2, 6]))]
         reqs.append(rq)
     return {"tree": tree, "write": draw(st.booleans()), "requests": reqs}
 
@@ -455,7 +468,7 @@ RULE = (
     "histories: a fresh sandbox per case (<tmp>/outside/{canary,dir/canary2} and <tmp>/root with a generated tree of files of sizes {0,1,15,16,17,31,32,33,1023,1024,1025,3000} and directories), "
     "a FileServer on <tmp>/root with write on/off, and 1-8 requests through Context.render_to_pipe: method GET/PUT/DELETE/POST/FETCH/PATCH, Uri-Path lists over names and a hostile alphabet ('', '.', '..', "
     "'a/b', '/', NUL, '..%2f', '%2e%2e', long names, the components of the absolute path of the outside canary / a new outside file / the outside directory / /etc/hostname behind a leading empty component, "
-    "dot-dot runs), If-Match / If-None-Match / ETag, Block2 (num, szx), payloads. Oracle: a file-system interposer (audit hook for open/listdir/scandir/rename/remove/mkdir/... plus os.stat/lstat wrappers) "
+    "dot-dot runs), If-Match / If-None-Match / ETag, Observe 0/1 on any method, Block1, Block2 (num, szx), payloads. Oracle: a file-system interposer (audit hook for open/listdir/scandir/rename/remove/mkdir/... plus os.stat/lstat wrappers) "
     "records every path touched during each request -- each must resolve (realpath) inside the root; a snapshot (names, contents, mtimes) of everything outside the root is unchanged, and with write off the inside too; "
     "hostile paths never yield 2.xx; successful PUT/DELETE/GET on well-behaved paths have the expected effect/content. blockget: complete enumeration of file size x szx 0-7 (7 = BERT, 1024-byte units) x explicit/implicit first block: the "
     "reassembled blocks equal the file, M set exactly while bytes remain, one ETag. Non-trivial = history with a hostile path (empty non-final or leading component, dot segment, separator); blockget with > 2 blocks. "
